@@ -7,6 +7,7 @@ import (
 	"strings"
 
 	"verif/checker/core"
+	"verif/checker/flow"
 
 	"golang.org/x/tools/go/packages"
 )
@@ -29,6 +30,8 @@ func c25(p *core.Program, r *core.Report) {
 	r.Rule("R1", "no internal map escapes: every attribute map an AttrStore method returns is freshly allocated on that path (a copy loop or a constructor/decoder result) — never a map that was also stored into the attribute cache, and never a package-level map (the shared empty map)")
 	r.Rule("R2", "attribute type tables agree: the value types txUpdateAttrs stores (after coercing int/uint/uint64 to int64) are exactly the types pilosa.encodeAttr and encoding/proto.encodeAttr can encode (both also accept uint64), and each decoder has one case per attribute type constant")
 	r.Rule("R4", "block bounds agree: attrStore.Blocks and attrStore.BlockData segment ids by the same constant (attrBlockSize) with the same half-open convention")
+	r.Rule("R5", "a null reaches the store: outside the attribute store itself, every loop that copies one attribute map into another (range over a map[string]interface{} storing dst[key] = value) stores every entry, whatever its value -- a nil value is the instruction to delete the key and must arrive at SetAttrs/SetBulkAttrs, not be dropped or applied to the pending batch")
+	c25NullReachesStore(p, r)
 	r.NotDecided = "bolt persistence, checksum equality 'exactly when' (hash semantics), merge semantics of SetBulkAttrs for all histories"
 	bp := p.Pkg("boltdb")
 	pk := p.Pkg("")
@@ -321,4 +324,98 @@ func c25Escapes(p *core.Program, r *core.Report, bp *packages.Package) {
 		})
 		r.Check(makes && !returnsField, "R1", "(*attrCache).Get", p.Pos(fd.Pos()), "returns a copy of the cached map", "the cache getter returns the cached map itself")
 	}
+}
+
+// c25NullReachesStore: R5.
+func c25NullReachesStore(p *core.Program, r *core.Report) {
+	pk := p.Pkg("")
+	info := pk.TypesInfo
+	isAttrMap := func(t types.Type) bool {
+		m, ok := t.Underlying().(*types.Map)
+		if !ok {
+			return false
+		}
+		k, ok := m.Key().Underlying().(*types.Basic)
+		if !ok || k.Kind() != types.String {
+			return false
+		}
+		_, isIface := m.Elem().Underlying().(*types.Interface)
+		return isIface
+	}
+	n := 0
+	for _, fd := range core.AllFuncDecls(pk) {
+		if fd.Body == nil || strings.HasSuffix(p.Fset.Position(fd.Pos()).Filename, "_test.go") {
+			continue
+		}
+		ast.Inspect(fd.Body, func(nd ast.Node) bool {
+			rs, ok := nd.(*ast.RangeStmt)
+			if !ok || !isAttrMap(info.TypeOf(rs.X)) {
+				return true
+			}
+			kid, ok1 := rs.Key.(*ast.Ident)
+			vid, ok2 := rs.Value.(*ast.Ident)
+			if !ok1 || !ok2 {
+				return true
+			}
+			kObj, vObj := info.ObjectOf(kid), info.ObjectOf(vid)
+			// does the body copy into another attribute map?
+			isCopy := func(n ast.Node) bool {
+				as, ok := n.(*ast.AssignStmt)
+				if !ok || len(as.Lhs) != 1 || len(as.Rhs) != 1 {
+					return false
+				}
+				ix, ok := ast.Unparen(as.Lhs[0]).(*ast.IndexExpr)
+				if !ok || !isAttrMap(info.TypeOf(ix.X)) {
+					return false
+				}
+				ki, ok := ast.Unparen(ix.Index).(*ast.Ident)
+				if !ok || info.ObjectOf(ki) != kObj {
+					return false
+				}
+				vi, ok := ast.Unparen(as.Rhs[0]).(*ast.Ident)
+				return ok && info.ObjectOf(vi) == vObj
+			}
+			copies := false
+			ast.Inspect(rs.Body, func(m ast.Node) bool {
+				if m != nil && isCopy(m) {
+					copies = true
+				}
+				return true
+			})
+			if !copies {
+				return true
+			}
+			n++
+			construct := core.FuncName(fd) + " copy of " + types.ExprString(rs.X)
+			const bStored flow.State = 1
+			var bad []string
+			h := flow.Hooks{Info: info}
+			h.Atom = func(m ast.Node, s flow.State) []flow.State {
+				if isCopy(m) {
+					return []flow.State{s | bStored}
+				}
+				return []flow.State{s}
+			}
+			h.Return = func(ret *ast.ReturnStmt, s flow.State) {
+				if s&bStored == 0 {
+					pos := rs.Body.End()
+					if ret != nil {
+						pos = ret.Pos()
+					}
+					bad = append(bad, p.Pos(pos))
+				}
+			}
+			it := flow.Run(h, c13IterationBody(rs.Body), 0)
+			switch {
+			case it.Unsupported != "":
+				r.Undecide("R5", construct, p.Pos(rs.Pos()), it.Unsupported)
+			case len(bad) > 0:
+				r.Violate("R5", construct, p.Pos(rs.Pos()), "an entry can leave the copy loop without being stored (iteration ends at "+strings.Join(dedupe(bad), ", ")+"): a null meant to delete a stored key never reaches the attribute store, so the old value survives (and the outcome depends on whether the calls were batched)")
+			default:
+				r.HoldAt("R5", construct, p.Pos(rs.Pos()), "every entry is stored")
+			}
+			return true
+		})
+	}
+	r.Floor("C25/R5 attribute map copy loops", n, 2)
 }
